@@ -179,10 +179,12 @@ RILIST_RANKS = {"float": (1, 3), "double": (2, 4), "int32_t": (3, 4), "int64_t":
 UNIT_SHAPES = [(1, 3, 1, 4), (3, 1, 1, 4), (3, 4, 1, 1), (1, 1, 3, 4), (1, 3, 4, 1), (3, 1, 4, 1), (1, 5), (5, 1), (2, 1, 3), (1, 2, 3), (2, 3, 1), (1, 1, 6), (2, 3), (4, 1, 1, 1)]
 
 def shape_of_rank(rng, r, quick=True):
+    """never all extents equal, never a palindrome (a missing reversal must show), last two extents distinct and > 1 (a swap of
+    the innermost loops / extents must show)"""
     if r == 1: return (rng.randint(2, 9),)
     while True:
         s = tuple(rng.randint(1, 4) for _ in range(r))
-        if len(set(s)) > 1 and prod(s) <= 96 and prod(s) > 1: return s      # never all extents equal: a swapped extent must show
+        if s != s[::-1] and s[-1] != s[-2] and min(s[-2:]) > 1 and 1 < prod(s) <= 96 and (r < 3 or sum(x > 1 for x in s) >= 3): return s
 
 def real_groups(tier, seed):
     rng = random.Random(seed * 733 + 5)
@@ -197,7 +199,7 @@ def real_groups(tier, seed):
             for n in (rng.sample(sizes, 2) if quick else sizes):
                 s = rng.choice(factorisations(n))
                 calls.append("run_rmap<%s,%s>(%du);" % (t, ",".join(map(str, s)), seed * 31 + n))
-            reps = 1 if quick else 5
+            reps = 1 if quick else 2
             for _ in range(reps):
                 for r in RCTOR_RANKS[t] if quick else (1, 2, 3, 4, 5):
                     calls.append("run_rctor<%s,%s>(0u);" % (t, ",".join(map(str, shape_of_rank(rng, r)))))
@@ -213,7 +215,8 @@ def real_groups(tier, seed):
                 calls.append("run_rwide<%s,%d,%d,%d>(%du);" % (t, (ti + k + seed) % 2, M, max(N, 2), seed * 23 + k))
             for n in (rng.sample([2, 3, 4, 5, 8], 1) if quick else [2, 3, 4, 5, 8, 9]):
                 calls.append("run_rlin<%s,%d>(%du);" % (t, n, seed * 29 + n))
-            for sh in (rng.sample(UNIT_SHAPES, 2) if quick else UNIT_SHAPES):
+            k0 = (ti * 3 + seed) % len(UNIT_SHAPES)
+            for sh in ([UNIT_SHAPES[(k0 + j * 5) % len(UNIT_SHAPES)] for j in range(3)] if quick else UNIT_SHAPES):
                 calls.append("run_rshape<%s,%s>(%du);" % (t, ",".join(map(str, sh)), seed * 37 + len(sh)))
             for ch in symrun.chunk(calls, REAL_TU):
                 groups.append({"key": "%s/%s" % (isa, t), "header": "map_wide.h", "isa": isa, "opt": "-O2", "calls": ch,
